@@ -28,8 +28,15 @@ PROPS["C06"] = {
     "explanation": "all proper ordered subsets / ordered partitions for D in {2,3}, R<=3",
 }
 
+def _inst(t):
+    d = {"module": t[0], "cfg": t[1], "nprimes": 6}
+    if len(t) > 2:
+        d.update(t[2])
+    return d
+
+
 def _cond(pid, cfgs, text, expl):
-    PROPS[pid] = {"quick": [{"module": m, "cfg": c, "nprimes": 6} for m, c in cfgs],
+    PROPS[pid] = {"quick": [_inst(t) for t in cfgs],
                   "level_text": text, "level_note": _LN, "explanation": expl}
 
 _cond("C07", [("MC_COND", "MC_C07_quick.cfg")],
@@ -52,13 +59,17 @@ _cond("C03", [("MC_C03", "MC_C03_quick.cfg")],
       "TLC enumerates the 11 polynomial keys x coefficient modes (omitted / shared / per-component, matrix and vector independently) x output dimensions K != L != M x measures with mass != 1 and densities; expected values are mass x Isserlis moment from the semantic layer (no transcription of the einsum formulas); table-internal rearrangement identities are checked by TLC; every behaviour is replayed, exact mode compared bit-exactly.",
       "D in {2,3}, (K,L,M) permutations of (1,2,3), R in {1,2}, at most one form deviating from shared/shared per behaviour (quick)")
 
-_cond("C14", [("MC_C03", "MC_C14_quick.cfg"), ("MC_COND", "MC_C14a_quick.cfg"), ("MC_COND", "MC_C14b_quick.cfg")],
+_cond("C14", [("MC_C03", "MC_C14_quick.cfg"), ("MC_COND", "MC_C14a_quick.cfg"), ("MC_COND", "MC_C14b_quick.cfg"),
+              ("MC_C16", "MC_C14c_quick.cfg", {"require_acts": ["FeatIntLogCond"]}),
+              ("MC_C16", "MC_C14d_quick.cfg", {"require_acts": ["FeatIntLogCondY"]})],
       "Expected log-factor and expected log-conditional integrals are defined in the specification through exact Isserlis moments (E[x' Lam x], E[x]) for arbitrary Gaussian q, enumerated over every factor kind / conditional class / batch pattern, and replayed into the code (callable and y-given variants).",
-      "linear part: all factor kinds with R_f in {1, R_u}; conditional classes Cond, CondDiag, CondId, CondIdDiag; q an arbitrary Gaussian over (y,x)")
+      "all factor kinds with R_f in {1, R_u}; conditional classes Cond, CondDiag, CondId, CondIdDiag; RBF and squared-exponential feature models (kernel expectations as exp-atoms from the semantic layer, replacing the property's quadrature oracle by the exact value); q an arbitrary Gaussian over (y,x)")
 
 PROPS["C04"] = {
-    "quick": [{"module": "MC_SESSION", "cfg": "MC_C04M_quick.cfg", "nprimes": 6},
-              {"module": "MC_SESSION", "cfg": "MC_C04C_quick.cfg", "nprimes": 6}],
+    "quick": [{"module": "MC_SESSION", "cfg": "MC_C04M_quick.cfg", "nprimes": 6, "sample_mod": 8,
+               "require_acts": ["Multiply", "Hadamard", "GetDensity", "Normalize", "Product", "Slice", "Query"]},
+              {"module": "MC_SESSION", "cfg": "MC_C04C_quick.cfg", "nprimes": 6,
+               "require_acts": ["Transform", "CondOnX", "SetY", "UpdateSigma", "ConditionOn", "Marginal", "Update", "Slice"]}],
     "level_text": "The session state machine is explored exhaustively by TLC (every operation sequence up to the depth, cache-warming queries interleaved; invariant: every populated cache of every live object equals the value derived from its defining parameters, for the implementation-shaped cache formulas incl. Sherman-Morrison, determinant lemma, covariance reuse, diagonal inversion); every explored history is replayed into the code and every cache field the code exposes is compared with the exactly derived value after every step.",
     "level_note": _LN + " History depth is bounded (see cfg); deeper histories are sampled in the thorough tier.",
     "explanation": "family M: measure/factor algebra; family C: conditionals, transformations, likelihood factors, marginals, update",
@@ -71,7 +82,8 @@ _cond("C11", [("MC_C11", "MC_C11s_quick.cfg"), ("MC_C11", "MC_C11k_quick.cfg")],
 _cond("C02", [("MC_C02", "MC_C02_quick.cfg"), ("MC_SESSION", "MC_C04C_quick.cfg")],
       "TLC checks in every reachable state of the scenario and session models that the reported log-mass (lnZ cache + ln_beta, light and full paths) equals the Gaussian integral of the function the object evaluates to, that every density-class object has mass one and equals the normal density of its own mean/covariance on the unisolvent lattice, and that normalize() divides by the mass; all constructor argument combinations and every density-returning API are enumerated; every behaviour is replayed into the code (all five mass queries in two orders).",
       "8 constructor variants x 7 modifications x 2 query orders; session family C for densities returned by slicing, marginalising, conditioning and the affine transformations")
-_cond("C12", [("MC_SESSION", "MC_C12M_quick.cfg"), ("MC_SESSION", "MC_C12C_quick.cfg")],
+_cond("C12", [("MC_SESSION", "MC_C12M_quick.cfg", {"sample_mod": 16, "require_acts": ["Multiply", "Hadamard", "Slice", "Product"]}),
+              ("MC_SESSION", "MC_C12C_quick.cfg", {"sample_mod": 2, "require_acts": ["Transform", "CondOnX", "SetY", "Slice", "Update"]})],
       "In the specification every operation is defined component-wise with the documented index maps (i*R2+j, r*N+n, batch index of the non-singleton operand) and TLC checks them (Inv_Slice, Inv_Pointwise, Inv_Transform, Inv_CondOnX, Inv_SetY, Inv_Update) in every state of session models with R=3 operands and index arrays with repetitions, permutations and negative entries; the explored histories contain both op;slice and slice;op and each is replayed into the code and compared with the exact component values, so cross-component leakage shows as a per-step mismatch.",
       "R in {1,3}, slice patterns incl. negatives/repeats/permutations, session depth per cfg; every second family-M behaviour replayed (hash-sampled, all checked by TLC)")
 _cond("C15", [("MC_C01", "MC_C15a_quick.cfg"), ("MC_COND", "MC_C15b_quick.cfg"), ("MC_C03", "MC_C15c_quick.cfg")],
